@@ -424,6 +424,18 @@ impl ReadXml for Reply {
                                 tracing::debug!(?tag);
                                 this = Some(Self::Ok);
                             }
+                            // `<ok></ok>` carries the same information as `<ok/>`
+                            (ResolveResult::Bound(xmlns::BASE), Event::Start(tag))
+                                if tag.local_name().as_ref() == b"ok"
+                                    && this.is_none()
+                                    && errors.iter().all(|err| {
+                                        err.severity() != rpc::error::Severity::Error
+                                    }) =>
+                            {
+                                tracing::debug!(?tag);
+                                _ = reader.read_to_end(tag.to_end().name())?;
+                                this = Some(Self::Ok);
+                            }
                             (ResolveResult::Bound(ns), Event::Start(tag))
                                 if ns == xmlns::BASE
                                     && tag.local_name().as_ref() == b"rpc-error"
